@@ -120,8 +120,14 @@ type CheckOutcome struct {
 func (e *Engine) targetsFor(prop string) (funcs []string, lemmas []*LemmaDef) {
 	for _, key := range e.cs.Order {
 		ct := e.cs.Funcs[key]
-		if ct.Trusted || ct.Opaque {
+		if ct.Trusted {
 			continue
+		}
+		if ct.Opaque {
+			// opaque contracts take part only through their structural obligations
+			if _, ok := ct.Attrs["deterministic"]; !ok || !hasProp(ct.Props, prop) {
+				continue
+			}
 		}
 		use := hasProp(ct.Props, prop)
 		for _, cl := range ct.Ensures {
@@ -240,6 +246,7 @@ type Verdict struct {
 	Deferred            []string
 	Missing             []string
 	EngineErr           bool
+	UnreachableReturns  []string
 }
 
 // judge applies the ledger and the known-findings file to the raw solver results.
@@ -280,6 +287,10 @@ func judge(out *CheckOutcome, tier string, verbose bool) *Verdict {
 			fmt.Printf("  %-14s %-70s %s %.2fs\n", r.Status, r.Name, r.Solve.Winner, r.Solve.Secs)
 		}
 		if r.Kind == "cover" {
+			if r.Status == "cover-failed" && strings.Contains(r.Name, "vacuity:each-return") {
+				v.UnreachableReturns = append(v.UnreachableReturns, r.Name)
+				continue
+			}
 			if r.Status == "cover-failed" {
 				if strings.HasSuffix(r.Name, "requires-sat") {
 					out.Errors = append(out.Errors, "vacuous precondition: "+r.Name)
@@ -371,6 +382,9 @@ func finishCheck(e *Engine, out *CheckOutcome, tier string, seed int, verbose bo
 	}
 	for _, m := range missing {
 		fmt.Fprintln(os.Stderr, "govc: note: expected obligation no longer generated:", m)
+	}
+	for _, u := range vd.UnreachableReturns {
+		fmt.Fprintln(os.Stderr, "govc: note: return path unreachable under the contract's assumptions:", u)
 	}
 	for _, d := range deferred {
 		fmt.Fprintln(os.Stderr, "govc: note: slow obligation left to the thorough tier (no refutation found in the quick budget):", d)
@@ -541,7 +555,9 @@ func cmdLock(args []string) int {
 			continue
 		}
 		e.errors = nil
-		out := runProperty(e, p, "thorough", 0)
+		os.Setenv("GOVC_TIMEOUT", "300")
+		out := runProperty(e, p, "quick", 0)
+		os.Unsetenv("GOVC_TIMEOUT")
 		ent := map[string]LedgerEntry{}
 		bad := map[string]bool{}
 		for _, r := range out.Results {
